@@ -14,14 +14,14 @@ func genProto(r *lib.Rng, g int, thorough bool) ProtoSpec {
 	switch {
 	case mode < 55: // one family with relations
 		f := fams[r.Intn(len(fams))]
-		for f == "m2m" {
+		for hasM2M(f) {
 			f = fams[r.Intn(len(fams))]
 		}
 		pick(f)
 	case mode < 70: // two families
 		for k := 0; k < 2; k++ {
 			f := fams[r.Intn(len(fams))]
-			for f == "m2m" {
+			for hasM2M(f) {
 				f = fams[r.Intn(len(fams))]
 			}
 			pick(f)
@@ -91,4 +91,17 @@ func genProto(r *lib.Rng, g int, thorough bool) ProtoSpec {
 		spec.Delays = append(spec.Delays, d)
 	}
 	return spec
+}
+
+// hasM2M: families with a many2many relation (the join-table parse is a nested PUBLIC Parse on a
+// reflect.StructOf type, which the protocol model does not contain) stay out of the protocol rounds
+func hasM2M(fam string) bool {
+	for _, t := range Families[fam] {
+		for _, r := range Pool[t].Rels {
+			if r.Kind == "many2many" {
+				return true
+			}
+		}
+	}
+	return false
 }
